@@ -831,6 +831,10 @@ func (fv *FnVC) strLit(s string) string {
 			fv.emitGlobal(fmt.Sprintf("(assert (= (s_at %s %s) %s))", n, bv64(int64(i)), bvConst(8, uint64(s[i]))))
 		}
 	}
+	if strings.Contains(s, "%") {
+		// which operand a format literal wraps is read off the literal's text
+		fv.emitGlobal(fmt.Sprintf("(assert (= (spec_fmt_wraps0 %s) %v))", n, firstVerbIsW(s)))
+	}
 	// distinct from all earlier literals
 	var names []string
 	for _, o := range fv.strLits {
@@ -1001,4 +1005,26 @@ func (fv *FnVC) visibleLocalRoots() []string {
 		}
 	}
 	return out
+}
+
+// firstVerbIsW: the first formatting verb of a fmt format string is %w.
+func firstVerbIsW(f string) bool {
+	for i := 0; i < len(f); i++ {
+		if f[i] != '%' {
+			continue
+		}
+		i++
+		if i < len(f) && f[i] == '%' {
+			continue
+		}
+		// flags, width, precision, argument indexes
+		for i < len(f) && strings.IndexByte("+-# 0123456789.*[]", f[i]) >= 0 {
+			if f[i] == '[' {
+				return false // explicit argument indexes: not modelled
+			}
+			i++
+		}
+		return i < len(f) && f[i] == 'w'
+	}
+	return false
 }
